@@ -56,6 +56,7 @@ func isUExt32(i *Instruction) bool   { return i.opcode == OpcodeUExtend && i.u1 
 func IsLoaded(v Value) bool    { return verif_ghost_map("M:isLd", uint64(v)) == 1 }
 func LoadedFrom(v Value) Value { return Value(verif_ghost_map("M:ldPtr", uint64(v))) }
 func LoadedAt(v Value) uint64  { return verif_ghost_map("M:ldOff", uint64(v)) }
+func LoadedAs(v Value) Type    { return Type(verif_ghost_map("M:ldTyp", uint64(v))) }
 
 // accWidth: the number of bytes a load / store instruction accesses (0: not a memory access).
 func accWidth(i *Instruction) int {
@@ -129,11 +130,11 @@ func b2g(b bool) int {
 //@   ensures[access] (accWidth(raw) != 0 ==> gr("accW") == accWidth(raw) && gr("accOff") == int(uint32(raw.u1))) && (accWidth(raw) == 0 ==> gr("accW") == old(gr("accW")) && gr("accOff") == old(gr("accOff")))
 //@   ensures[const-map] verif_ghost_map_upd("M:isConst", uint64(raw.rValue), raw.opcode == OpcodeIconst, 1) && verif_ghost_map_upd("M:constVal", uint64(raw.rValue), raw.opcode == OpcodeIconst, raw.u1)
 //@   ensures[exits-by-code] verif_ghost_map_upd("M:exN", raw.u1, isExitIf(raw), verif_ghost_map_old("M:exN", raw.u1)+1) && verif_ghost_map_upd("M:exViaCmp", raw.u1, isExitIf(raw), uint64(old(b2g(int(raw.v2) == gr("icmpRet"))))) && verif_ghost_map_upd("M:exC", raw.u1, isExitIf(raw), uint64(old(gr("icmpC")))) && verif_ghost_map_upd("M:exX", raw.u1, isExitIf(raw), uint64(old(gr("icmpX")))) && verif_ghost_map_upd("M:exY", raw.u1, isExitIf(raw), uint64(old(gr("icmpY"))))
-//@   ensures[load-map] verif_ghost_map_upd("M:isLd", uint64(raw.rValue), raw.opcode == OpcodeLoad, 1) && verif_ghost_map_upd("M:ldPtr", uint64(raw.rValue), raw.opcode == OpcodeLoad, uint64(raw.v)) && verif_ghost_map_upd("M:ldOff", uint64(raw.rValue), raw.opcode == OpcodeLoad, raw.u1)
+//@   ensures[load-map] verif_ghost_map_upd("M:isLd", uint64(raw.rValue), raw.opcode == OpcodeLoad, 1) && verif_ghost_map_upd("M:ldPtr", uint64(raw.rValue), raw.opcode == OpcodeLoad, uint64(raw.v)) && verif_ghost_map_upd("M:ldOff", uint64(raw.rValue), raw.opcode == OpcodeLoad, raw.u1) && verif_ghost_map_upd("M:ldTyp", uint64(raw.rValue), raw.opcode == OpcodeLoad, uint64(raw.typ))
 //@   ensures[exit-check] gr("exitChecks") == old(gr("exitChecks")) + old(b2g(isExitCodeCheck(raw)))
 //@   ensures[oob] isOOBCheck(raw) ==> gr("oobChecks") == old(gr("oobChecks")) + 1 && gr("oobCode") == int(raw.u1) && gr("oobLen") == old(gr("icmpX")) && gr("oobAddX") == old(gr("iaddX")) && gr("oobAddY") == old(gr("iaddY")) && gr("oobArg") == old(int(verif_ghost_map("M:uextArg", uint64(gr("iaddX"))))) && gr("oobCeil") == old(int(verif_ghost_map("M:constVal", uint64(gr("iaddY"))))) && gr("oobViaExt") == old(b2g(verif_ghost_map("M:uext32", uint64(gr("iaddX"))) == 1)) && gr("oobViaConst") == old(b2g(verif_ghost_map("M:isConst", uint64(gr("iaddY"))) == 1))
 //@   ensures[not-oob] !isOOBCheck(raw) ==> gr("oobChecks") == old(gr("oobChecks")) && gr("oobCode") == old(gr("oobCode")) && gr("oobLen") == old(gr("oobLen")) && gr("oobAddX") == old(gr("oobAddX")) && gr("oobAddY") == old(gr("oobAddY")) && gr("oobArg") == old(gr("oobArg")) && gr("oobCeil") == old(gr("oobCeil")) && gr("oobViaExt") == old(gr("oobViaExt")) && gr("oobViaConst") == old(gr("oobViaConst"))
-//@   modifies raw.rValue, ghost("M:uext32"), ghost("M:uextArg"), ghost("M:isLd"), ghost("M:ldPtr"), ghost("M:ldOff"), ghost("M:isConst"), ghost("M:constVal"), ghost("M:exN"), ghost("M:exViaCmp"), ghost("M:exC"), ghost("M:exX"), ghost("M:exY"), ghost("accW"), ghost("accOff"), ghost("lastOp"), ghost("lastV"), ghost("lastV2"), ghost("lastV3"), ghost("lastU1"), ghost("lastU2"), ghost("lastRet"), ghost("lastTyp"), ghost("loadPtr"), ghost("loadOff"), ghost("loadRet"), ghost("exitChecks"), ghost("uextArg"), ghost("uextRet"), ghost("uextFT"), ghost("iconstVal"), ghost("iconstRet"), ghost("iaddX"), ghost("iaddY"), ghost("iaddRet"), ghost("icmpX"), ghost("icmpY"), ghost("icmpC"), ghost("icmpRet"), ghost("oobChecks"), ghost("oobCode"), ghost("oobArg"), ghost("oobCeil"), ghost("oobLen"), ghost("oobAddX"), ghost("oobAddY"), ghost("oobViaExt"), ghost("oobViaConst")
+//@   modifies raw.rValue, ghost("M:uext32"), ghost("M:uextArg"), ghost("M:isLd"), ghost("M:ldPtr"), ghost("M:ldOff"), ghost("M:ldTyp"), ghost("M:isConst"), ghost("M:constVal"), ghost("M:exN"), ghost("M:exViaCmp"), ghost("M:exC"), ghost("M:exX"), ghost("M:exY"), ghost("accW"), ghost("accOff"), ghost("lastOp"), ghost("lastV"), ghost("lastV2"), ghost("lastV3"), ghost("lastU1"), ghost("lastU2"), ghost("lastRet"), ghost("lastTyp"), ghost("loadPtr"), ghost("loadOff"), ghost("loadRet"), ghost("exitChecks"), ghost("uextArg"), ghost("uextRet"), ghost("uextFT"), ghost("iconstVal"), ghost("iconstRet"), ghost("iaddX"), ghost("iaddY"), ghost("iaddRet"), ghost("icmpX"), ghost("icmpY"), ghost("icmpC"), ghost("icmpRet"), ghost("oobChecks"), ghost("oobCode"), ghost("oobArg"), ghost("oobCeil"), ghost("oobLen"), ghost("oobAddX"), ghost("oobAddY"), ghost("oobViaExt"), ghost("oobViaConst")
 
 // (pure helpers, given a frame so that callers deep in an inlined chain keep the ghost registers)
 //@ func (v Value) Type() Type
